@@ -135,6 +135,10 @@ def runPk (secret : List UInt8) (magic : Nat) (ini : Bool) (pkts : List (List Na
   for pk in pkts do
     match pk with
     | [len, seed, ign, aadlen] =>
+      if ign ≥ 2 then
+        let e := encodePacket CP sd (UInt8.ofNat ign) (fill seed len) (fill (seed + 1) aadlen)
+        sd := e.2; wire := e.1 :: wire
+      else
       match sendPacket CP sd (fill seed len) (fill (seed + 1) aadlen) (ign == 1) with
       | some (b, d') => sd := d'; wire := b :: wire
       | none => none
